@@ -26,6 +26,7 @@ import (
 	"encoding/json"
 	"fmt"
 	"os"
+	"runtime/debug"
 	"sort"
 	"strconv"
 	"strings"
@@ -151,7 +152,7 @@ func (s *c31Session) feed(tb ev.TB, rec *ev.Rec, allowed int64, block []byte, cu
 
 	s.bwOut = nil
 	var wErr error
-	wPanic := ev.Try(func() {
+	wPanic, wSite := tryStack(func() {
 		in := append([]byte(nil), block...)
 		if _, wErr = s.bw.Write(in); wErr == nil {
 			wErr = s.bw.Close()
@@ -159,7 +160,7 @@ func (s *c31Session) feed(tb ev.TB, rec *ev.Rec, allowed int64, block []byte, cu
 	})
 	s.bsOut = nil
 	var sErr error
-	sPanic := ev.Try(func() {
+	sPanic, sSite := tryStack(func() {
 		for _, ch := range splitAt(block, cuts) {
 			in := append([]byte(nil), ch...) // Write must not rely on the caller keeping the slice
 			if _, sErr = s.bs.Write(in); sErr != nil {
@@ -195,13 +196,13 @@ func (s *c31Session) feed(tb ev.TB, rec *ev.Rec, allowed int64, block []byte, cu
 	nt := info.huff || info.indexed || (info.intent != "" && info.intent != "mutated")
 	rec.Case(fmt.Sprintf("%d/%d/%d/%d/%x/%v", s.w.Tab, s.w.MaxStr, s.stepNo, allowed, block, cuts), nt, classes...)
 
-	kindTag := refKind
-	if kindTag == "" {
-		kindTag = "valid-input"
-	}
 	if wPanic != nil || sPanic != nil {
+		site := wSite
+		if wPanic == nil {
+			site = sSite
+		}
 		s.w.Note = fmt.Sprintf("panic whole=%v split=%v", wPanic, sPanic)
-		rec.Fail(tb, "panic-"+kindTag, s.w, "bfe hpack decoder panicked (whole=%v, split=%v) on block %x (reference verdict: %s)", wPanic, sPanic, block, kindTag)
+		rec.Fail(tb, "panic-"+site, s.w, "bfe hpack decoder panicked at %s (whole=%v, split=%v) on block %x (reference verdict: %s)", site, wPanic, sPanic, block, orOK(refKind))
 		return false
 	}
 	if xPanic != nil {
@@ -270,6 +271,42 @@ func (s *c31Session) feed(tb ev.TB, rec *ev.Rec, allowed int64, block []byte, cu
 		rec.Class("bfe-stricter-than-oracles")
 	}
 	return refE == nil && xOK && wErr == nil && sErr == nil
+}
+
+// tryStack runs f; on panic it returns the panic value and a short site name
+// (innermost function of the in-tree hpack/http2 packages on the stack + kind of runtime error).
+func tryStack(f func()) (p any, site string) {
+	defer func() {
+		if p = recover(); p != nil {
+			site = "unknown"
+			for _, l := range strings.Split(string(debug.Stack()), "\n") {
+				if i := strings.Index(l, "bfe/bfe_http2"); i >= 0 && !strings.HasPrefix(l, "\t") {
+					fn := l[i:]
+					if j := strings.LastIndex(fn, "("); j > 0 {
+						fn = fn[:j]
+					}
+					if j := strings.LastIndex(fn, "."); j >= 0 {
+						fn = fn[j+1:]
+					}
+					site = fn
+					break
+				}
+			}
+			msg := fmt.Sprint(p)
+			switch {
+			case strings.Contains(msg, "nil pointer"):
+				site += "-nil-deref"
+			case strings.Contains(msg, "index out of range"):
+				site += "-index-range"
+			case strings.Contains(msg, "slice bounds"):
+				site += "-slice-bounds"
+			default:
+				site += "-other"
+			}
+		}
+	}()
+	f()
+	return nil, ""
 }
 
 func orOK(s string) string {
